@@ -1,5 +1,11 @@
 import Tx3Proofs.C17
+import Tx3Proofs.C17Lower
 #print axioms Tx3.Tii.C17_same_spelling
 #print axioms Tx3.Tii.C17_required_are_declared
 #print axioms Tx3.Tii.dupNames_nil_iff
 #print axioms Tx3.Tii.C17_no_collision
+#print axioms Tx3.Lang.lower_decl
+#print axioms Tx3.Lang.resolve_names
+#print axioms Tx3.Lang.C17_lowered_requires_declared
+#print axioms Tx3.Lang.C17_lowered_keys_listed
+#print axioms Tx3.Lang.C17_reported_params_listed
